@@ -10,7 +10,7 @@ from harness.props import evaluating as ev
 RULE = ("complete layer: every well-formed document with <= 3 nodes over keys {a,b,ab,1,-1} and values "
         "{null,true,false,0,1,2,1.5,'a','ab',''} (maps with keys in alphabet order, sequences, sets) x every 1-segment "
         "path of the 58-item vocabulary, and every document with <= 3 nodes over the reduced alphabet "
-        "(keys a,b,1; values null,true,1,1.5,'a','ab') x every 2-segment path of the core vocabulary (26 items; thorough: "
+        "(keys a,b,1; values null,true,1,1.5,'a','ab') x every 2-segment path of the core vocabulary (23 items; thorough: "
         "reduced alphabet x full vocabulary squared, and full alphabet x core vocabulary squared); plus seeded-random documents (<= 25 nodes: Arrays-of-Hashes, sets, anchors and "
         "aliases, nested lists) x random paths of <= 5 segments (indexes and slice bounds in -9..9).  Each case is asked through "
         "get_nodes(mustexist=True) and exists() in dot notation, get_nodes(mustexist=True) in slash notation (when both texts parse "
@@ -20,7 +20,7 @@ RULE = ("complete layer: every well-formed document with <= 3 nodes over keys {a
         "distinct_nontrivial = distinct (document, path) whose required query returns at least one node.")
 
 
-def build_jobs(chk, opts, nrand_quick=80000, nrand_thorough=1000000, grid=False):
+def build_jobs(chk, opts, nrand_quick=60000, nrand_thorough=1000000, grid=False):
     rng = random.Random(chk.seed)
     tier = chk.tier
     jobs = []
